@@ -36,8 +36,8 @@ Env == <<
   [n |-> "X",   kind |-> "type", ty |-> TNumber],
   [n |-> "InX", kind |-> "type", ty |-> OO(<<Prop("x", Ref("X"), FALSE)>>)],
   [n |-> "W",   kind |-> "type", params |-> <<"X">>, ty |-> OO(<<Prop("i", Ref("InX"), FALSE), Prop("v", Param("X"), FALSE)>>)],
-  [n |-> "InI", kind |-> "interface", ty |-> OO(<<Prop("x", Arr(Ref("X")), FALSE)>>), ext |-> <<>>],
-  [n |-> "W2",  kind |-> "type", params |-> <<"X">>, ty |-> OO(<<Prop("c", Ref("InI"), FALSE), Prop("d", Arr(Param("X")), FALSE)>>)],
+  [n |-> "InI", kind |-> "interface", ty |-> OO(<<Prop("x", Ref("X"), FALSE), Prop("xs", Arr(Ref("X")), TRUE)>>), ext |-> <<>>],
+  [n |-> "W2",  kind |-> "type", params |-> <<"X">>, ty |-> OO(<<Prop("c", Ref("InI"), FALSE), Prop("d", Param("X"), FALSE)>>)],
   \* a declared name that looks like the name generated for an instantiation (G<string>)
   [n |-> "G_string", kind |-> "type", ty |-> OO(<<Prop("v", TNumber, FALSE)>>)],
   [n |-> "Row", kind |-> "type", ty |-> Tup(<<TString, TNumber>>, <<TBoolean>>)]
